@@ -1,9 +1,40 @@
-"""CLI: python -m symx.replay <replay.json> — re-runs a recorded counterexample on the real code (plain floats)."""
+"""CLI: python -m symx.replay <replay.json> — re-runs a recorded counterexample on the real code (plain floats).
+
+Harnesses that expose a direct `replay(cex)` are called with the recorded inputs. For the others the recorded *unit* is run
+again (same encoding, same solver queries, same concrete replay of every counterexample) and the recorded obligation is
+looked up among the reproduced counterexamples of that unit.
+"""
 from __future__ import annotations
 
 import importlib
 import json
 import sys
+
+
+def _matches(unit, cfg):
+    """a unit description matches a recorded configuration when every key they share agrees (and they share one)."""
+    shared = [k for k in unit if k in cfg and k != 'tier']
+    return bool(shared) and all(json.dumps(unit[k], sort_keys=True, default=str) == json.dumps(cfg[k], sort_keys=True, default=str) for k in shared)
+
+
+def through_unit(mod, cex):
+    cfg = cex.get('config', {})
+    seen = set()
+    tried = 0
+    for tier in ('quick', 'thorough'):
+        for unit in mod.units(tier, 0):
+            key = json.dumps(unit, sort_keys=True, default=str)
+            if key in seen or not _matches(unit, cfg):
+                continue
+            seen.add(key)
+            tried += 1
+            u = dict(unit, tier=tier)
+            for part in mod.run_unit(u):
+                for cx in part.get('cex', []):
+                    if cx.get('reproduced') and cx.get('obligation') == cex.get('obligation') and \
+                            json.dumps(cx.get('config'), sort_keys=True, default=str) == json.dumps(cfg, sort_keys=True, default=str):
+                        return True, {'how': 'unit re-run', 'unit': unit, 'inputs': cx.get('inputs'), 'detail': cx.get('detail')}
+    return False, {'how': 'unit re-run', 'units_tried': tried, 'note': 'the recorded obligation was not violated again'}
 
 
 def main(argv=None):
@@ -12,8 +43,13 @@ def main(argv=None):
     with open(path) as f:
         rec = json.load(f)
     from . import gx  # noqa: F401  (imports the real code from /repo/src)
+    import os
+    os.environ.setdefault('SYMX_NO_EARLY_STOP', '1')
     mod = importlib.import_module(rec['harness'])
-    violated, detail = mod.replay(rec['cex'])
+    try:
+        violated, detail = mod.replay(rec['cex'])
+    except NotImplementedError:
+        violated, detail = through_unit(mod, rec['cex'])
     print(json.dumps({'property': rec['property'], 'obligation': rec['cex'].get('obligation'), 'violated': bool(violated),
                       'detail': detail}, indent=1, default=str))
     return 1 if violated else 0
